@@ -261,11 +261,14 @@ def same_fields(x, y):
 
 def array_problem(x, y, exact_class=True):
     """None if y reproduces x as the property requires (class of format, shape, dtype, fill, compressed axes, elements)"""
-    p = meta_problem(x, y, exact_class)
-    if p:
-        return p
-    if same_fields(x, y):
-        return None
+    try:
+        p = meta_problem(x, y, exact_class)
+        if p:
+            return p
+        if same_fields(x, y):
+            return None
+    except Exception as e:  # noqa: BLE001  a result whose attributes cannot even be read
+        return f"result is not a usable array: {type(e).__name__}: {str(e)[:100]}"
     try:
         with warnings.catch_warnings():
             warnings.simplefilter("ignore")
@@ -535,15 +538,22 @@ def t1_validate(ctx, cfg):
 def leg_a_save(ctx, pool):
     """members written + round trip: model vs implementation"""
     reqs, metas = [], []
+    dts = collections.Counter()
     for i, (label, x) in enumerate(pool):
         tok = Tok()
         xj = arr_json(x, tok)
         compressed = bool(i % 2)
+        try:
+            for k, v in read_members(save_bytes(x, compressed)).items():
+                dts[f"{cls_name(x)}:{k}:{v.dtype.kind}{v.ndim}d"] += 1
+        except Exception:  # noqa: BLE001
+            pass
         case = {"array": spec_of(x), "compressed": compressed}
         real_save = outcome_json(lambda: save_bytes(x, compressed), lambda b: members_json(read_members(b), tok))
         real_rt = outcome_json(lambda: load_bytes(save_bytes(x, compressed)), lambda y: arr_json(y, tok))
         reqs += [["npz_save", xj], ["npz_roundtrip", xj], ["npz_excluded", xj]]
         metas.append((label, case, real_save, real_rt))
+    ctx.notes.setdefault("correspondence", {})["member_kinds_written (class:member:dtype kind+ndim)"] = dict(sorted(dts.items()))
     outs = ctx.driver.run(reqs)
     for k, (label, case, real_save, real_rt) in enumerate(metas):
         ms, mr, me = outs[3 * k: 3 * k + 3]
@@ -627,11 +637,11 @@ def leg_a_load(ctx, rng, pool, n):
         src = coo if fam == "COO" else gcxs
         base = src[int(rng.integers(len(src)))]
         other = (gcxs if fam == "COO" else coo)[int(rng.integers(len(gcxs if fam == "COO" else coo)))]
-        kind, m = mutate_members(rng, base, other)
         tok = Tok()
         try:
+            kind, m = mutate_members(rng, base, other)
             mj = members_json(m, tok)
-        except ValueError:
+        except (ValueError, KeyError, IndexError):  # mutation not applicable to this member set / outside the modelled kinds
             continue
         b = io.BytesIO()
         np.savez(b, **m)
@@ -974,9 +984,13 @@ def embedded_archive_case(ctx, stats):
     if pos < 0:
         ctx.notes["embedded_archive"] = "inner file not found verbatim"
         return
-    y = load_bytes(blob)
-    if array_problem(x, y, exact_class=False):
-        fail_c(ctx, "npz-roundtrip", case, "outer array does not round-trip")
+    try:
+        prob = array_problem(x, load_bytes(blob), exact_class=False)
+    except Exception as e:  # noqa: BLE001
+        prob = f"raised {type(e).__name__}: {str(e)[:120]}"
+    if prob:
+        fail_c(ctx, "npz-roundtrip", case, f"outer array does not round-trip: {prob}")
+        return
     damage_prefixes(ctx, x, case, blob, stats, positions=[pos + len(blob_in) - 1, pos + len(blob_in), pos + len(blob_in) + 1])
 
 
@@ -1031,8 +1045,16 @@ def leg_c(ctx, rng, pool):
     for fmt in ("coo", "gcxs"):
         for compressed in ((False,) if quick else (False, True)):
             x = big_array((fmt, 1))
-            blob = save_bytes(x, compressed)
             case = {"label": f"big-{fmt}", "array": {"class": cls_name(x), "shape": [40, 50], "dtype": "<f8", "nnz": int(x.nnz)}, "recipe": [fmt, 1], "compressed": compressed}
+            ctx.case(f"C:npz:{cls_name(x)}", case, nontrivial=True)
+            try:
+                blob = save_bytes(x, compressed)
+                prob = array_problem(x, load_bytes(blob), exact_class=False)
+            except Exception as e:  # noqa: BLE001
+                prob = f"raised {type(e).__name__}: {str(e)[:120]}"
+            if prob:
+                fail_c(ctx, "npz-roundtrip", case, prob)
+                continue
             lay = member_layout(blob)
             pos = sorted({p for nm, ho, ds, en, sz in lay for p in range(ho, max(ds, ho + 60))} | set(range(0, len(blob), 97 if quick else 11))
                          | set(range(len(blob) - 700, len(blob))))
@@ -1069,10 +1091,15 @@ def run(ctx):
     ctx.notes["pool"] = {"arrays": len(pool), "unbuildable_gcxs (C05's subject, skipped)": unbuildable,
                          "by_class": dict(collections.Counter(cls_name(x) for _, x in pool)),
                          "by_rank": dict(collections.Counter(len(x.shape) for _, x in pool))}
-    leg_a_save(ctx, pool)
-    leg_a_load(ctx, rng, pool, 400 if ctx.quick else 6000)
-    leg_a_pickle(ctx, pool[:: (3 if ctx.quick else 1)])
-    leg_a_box(ctx, rng, 60 if ctx.quick else 600)
+    for name, stage in (("save", lambda: leg_a_save(ctx, pool)),
+                        ("load", lambda: leg_a_load(ctx, rng, pool, 400 if ctx.quick else 6000)),
+                        ("pickle", lambda: leg_a_pickle(ctx, pool[:: (3 if ctx.quick else 1)])),
+                        ("box", lambda: leg_a_box(ctx, rng, 60 if ctx.quick else 600))):
+        try:
+            stage()
+        except Exception as e:  # noqa: BLE001  a correspondence stage that cannot run is a broken correspondence; leg C still searches
+            import traceback
+            ctx.fail("A", f"model:{name}", {"stage": name}, f"correspondence stage raised {type(e).__name__}: {e}; {traceback.format_exc()[-400:]}")
     leg_c(ctx, rng, pool)
     # regime consistency: a guard the table reports must make the corresponding witness pass
     by = collections.Counter(f["finding"] for f in ctx.failures if f.get("finding"))
